@@ -304,6 +304,7 @@ static void run_C09(const Args &a, long cs) {
 }
 
 // ================================================================ C10
+static double g_unit = 1;
 static void run_C10(const Args &a, long cs) {
 	Rng r(a.seed, "C10", cs);
 	Problem p = gen_problem(r, 3, a.tier == "thorough" ? 400 : 150, true);
@@ -330,7 +331,7 @@ static void run_C10(const Args &a, long cs) {
 			case 7: v = (x < xm ? 0.0 : std::pow(x - xm, (double)p.ord[monodim])) - 2e-10 * (x - km[0]) / span + 1e-11 * std::sin(40 * x); break;
 			case 8: v = 0.0; break;
 			case 9: v = 1e-20 * (x - km[0]) + 1e-22 * r.normal(); break;
-			case 10: case 11: { double m = 2; for (int e = 0; e < p.nd; e++) if ((uint32_t)e != monodim) m *= 2 + std::sin(3 * p.co[e][p.idx[k][e]] * (e + 1)); v = (1 + 5 * (x - km[0]) / span) * m; break; }
+			case 10: case 11: { static const double units[] = {1, 1, 1e-12, 1e-9, 1e-6, 1e6}; if (k == 0) g_unit = units[r.below(6)]; double m = 2 * g_unit; /* the unit of the data: the fit is linear in it */ for (int e = 0; e < p.nd; e++) if ((uint32_t)e != monodim) m *= 2 + std::sin(3 * p.co[e][p.idx[k][e]] * (e + 1)); v = (1 + 5 * (x - km[0]) / span) * m; break; }
 			default: v = r.normal(); }
 			if (ykind >= 6) p.w[k] = 1.0;
 			p.y[k] = v;
@@ -401,13 +402,14 @@ static void run_C10(const Args &a, long cs) {
 			Table U; phase_log("fit(unconstrained twin)");
 			try { U.fit(*data, p.w, p.co, p.ord, p.kn, lam, por, Table::no_monodim, false); } catch (std::exception &e) { note("unconstrained-twin-threw"); }
 			if (U.get_ndim()) {
-				const float *cu = U.get_coefficients(); bool inactive = true; double cmax = 0;
-				for (size_t a2 = 0; a2 < p.ntot; a2++) { cmax = std::max(cmax, (double)std::fabs(cu[a2])); int j = (int)((a2 / inner) % p.n[monodim]); if (cu[a2] < 0.05 || (j > 0 && cu[a2] - cu[a2 - inner] < 0.05)) inactive = false; }
+				const float *cu = U.get_coefficients(); bool inactive = true; double cmax = 0; double un = (ykind == 10 || ykind == 11) ? g_unit : 1.0;
+				for (size_t a2 = 0; a2 < p.ntot; a2++) { cmax = std::max(cmax, (double)std::fabs(cu[a2])); int j = (int)((a2 / inner) % p.n[monodim]); if (cu[a2] < 0.05 * un || (j > 0 && cu[a2] - cu[a2 - inner] < 0.05 * un)) inactive = false; }
 				if (inactive && pivot_T < 1e-4) count("inactive-comparisons-skipped(ill-conditioned)");
 				else if (inactive) {
 					double worst = 0; for (size_t a2 = 0; a2 < p.ntot; a2++) worst = std::max(worst, std::fabs((double)cu[a2] - c[a2]));
 					count("inactive-constraint-comparisons"); if (ykind == 10) count("inactive-constraint-comparisons-with-smoothing-in-other-dimensions");
-					if (worst > 2e-3 * (cmax + 1)) viol("C10:fit(monodim):differs-from-unconstrained-fit-although-constraint-inactive", "{\"max_coefficient_difference\":" + jnum(worst) + ",\"scale\":" + jnum(cmax) + ",\"problem\":" + prob_brief(p) + "}");
+					if (un != 1) count("inactive-constraint-comparisons-in-other-units");
+					if (worst > 2e-3 * (cmax + un)) viol("C10:fit(monodim):differs-from-unconstrained-fit-although-constraint-inactive", "{\"max_coefficient_difference\":" + jnum(worst) + ",\"scale\":" + jnum(cmax) + ",\"problem\":" + prob_brief(p) + "}");
 				} else count("twin-not-strictly-monotone(skipped)");
 			}
 		}
